@@ -67,7 +67,8 @@ def _member(v: dict, d: str, name: str, method: bool) -> list:
         params = [p for p in [selfarg, "a" if d == "f" else ""] if p]
         if d in v["opt"]:
             params += ["*", "opt=None"]
-        return [f"def {name}({', '.join(params)}): ..."]
+        ret = " -> int" if d in v.get("ret", ()) else ""
+        return [f"def {name}({', '.join(params)}){ret}: ..."]
     if k == "attribute":
         return [f"{name} = {_val(v, d)}"]
     return []
